@@ -331,7 +331,7 @@ def run_batch(spec: dict, inj, scratch: str) -> BatchOutcome:
     real = InMemorySemantivaTransport()
     silent = jobq.make_logger("c15-master-log")
     orch = QueueSemantivaOrchestrator(transport=jobq.TransportTap(real, mon, "master"), stop_event=None, logger=silent)
-    orch.job_queue = jobq.TapQueue(mon, spec["poll_master"])      # attribute substitution: counts gets, caps poll
+    orch.job_queue = jobq.TapQueue(mon, spec["poll_master"], hold_until_statuses=spec.get("hold_until_statuses", 0))   # attribute substitution: counts gets, caps poll
     stop_event = threading.Event()
     threads: dict = {}
 
@@ -354,7 +354,9 @@ def run_batch(spec: dict, inj, scratch: str) -> BatchOutcome:
         role = f"{jobq.WORKER_PREFIX}{w}"
         roles.append(role)
         wl = jobq.make_logger(f"c15-worker-log-{w}", handler)
-        guarded(role, worker_loop, w, jobq.TransportTap(real, mon, role), SequentialSemantivaExecutor(), stop_event, wl,
+        wtap = jobq.TransportTap(real, mon, role)
+        wtap.hold_cfg_until = len(jobs) if spec.get("hold_until_statuses") else 0
+        guarded(role, worker_loop, w, wtap, SequentialSemantivaExecutor(), stop_event, wl,
                 spec["poll_worker"])
 
     shim, restore_uuid = jobq.install_uuid_shim()
@@ -800,7 +802,10 @@ def run(run):
         same_path_rewritten(run, scratch, seed)
     except Exception as exc:  # noqa: BLE001
         run.note_inconclusive(f"same-path scenario failed: {type(exc).__name__}: {exc}")
-    if sysmode != "0":
+    def systematic_pass(scratch):
+        # runs AFTER the perturbation-based batches: its few thousand executions leave thousands of generated classes behind
+        # (finding F17), which slows every later Pipeline construction in this process - the status-backlog batch needs the
+        # workers to finish a burst within one master poll
         # systematic pass first: it installs / removes its own sys.monitoring tool and module shims (never at the same
         # time as the YieldInjector below) and restores every module attribute before the perturbation-based batches
         from vlib import jobsched
@@ -812,7 +817,6 @@ def run(run):
 
             run.note_inconclusive(f"systematic pass failed: {type(exc).__name__}: {exc} :: {traceback.format_exc()[-600:]}")
         except BaseException:
-            shutil.rmtree(scratch, ignore_errors=True)
             raise
         run.floor("systematic_executions", 500)
         run.assumptions += [
@@ -830,10 +834,13 @@ def run(run):
             "woke up from its idle point by time-out twice in a row (once if every Future is done) while the global progress "
             "counter (queue put/get, transport publish/delivery, Future completion) did not move",
         ]
-        if sysmode == "only":
+    if sysmode == "only":
+        try:
+            systematic_pass(scratch)
+        finally:
             shutil.rmtree(scratch, ignore_errors=True)
-            run.case("systematic-only-slot", True)
-            return
+        run.case("systematic-only-slot", True)
+        return
     inj = jobq.YieldInjector().install()
     cover: Counter = Counter()
     workers_hist: Counter = Counter()
@@ -852,7 +859,9 @@ def run(run):
                 # status backlog: a burst of 36..40 jobs with the master's ORIGINAL 0.2 s poll — once the job queue is
                 # empty the master sleeps in its poll while the workers finish, so dozens of statuses wait at one tick
                 spec.update(poll_master=None, pacing=[0.0] * n, pacing_mode="burst", p_yield=0.0, slow=None, hot=[],
-                            poll_worker=0.001)
+                            poll_worker=0.001, hold_until_statuses=n - 2)
+                # made deterministic: the workers start taking jobs only when all are published, and the master stays in its
+                # poll (as if descheduled there) until all but two statuses are waiting
                 run.count("status_backlog_batches")
             only = os.environ.get("C15_ONLY")          # debugging aid: run only the named batch indices
             if only and str(b) not in only.split(","):
@@ -892,6 +901,12 @@ def run(run):
     finally:
         inj.uninstall()
         shutil.rmtree(scratch, ignore_errors=True)
+    if sysmode != "0":
+        scratch2 = tempfile.mkdtemp(prefix="verif-c15-sys-")
+        try:
+            systematic_pass(scratch2)
+        finally:
+            shutil.rmtree(scratch2, ignore_errors=True)
     run.info["workers_histogram"] = dict(workers_hist)
     run.info["job_kinds"] = dict(kinds)
     run.info["failing_position_histogram"] = {str(k): v for k, v in sorted(cover.items())}
